@@ -2957,3 +2957,101 @@ def run_readbase(prog, ctx=None):
                    "" if bad is None else "`%s` is handed %s.base with the length %s that mpt_message_read() (line %s) has already consumed into its buffer: the cursor stands behind those bytes" % (
                        norm(show(bad, f))[:70], mname, ntext, e.get("l")))
     return res
+
+
+def run_deadcall(prog, ctx=None):
+    """DEADCALL: a call whose result is ignored is made for its effect.  Where the interval analysis of the callee with the
+    caller's arguments reaches only returns that refuse (`return 0` / false as a literal, or a wrapper's `return g(..) ? true
+    : false` around a call of which the same holds), while the callee has other returns, the statement can only be refused
+    and does nothing: `curr->set_name(0)` ("mark element as unused") passes the default length -1 with a null name, which
+    mpt_identifier_set() refuses before it touches the identifier - the removed element keeps its name."""
+    from .ival import Analysis, Summaries, join
+    from .rules_effect import call_sites
+    res = Result("DEADCALL")
+    files = set(ctx.get("files", [])) if ctx else None
+    sm = Summaries(prog)
+
+    def refusal_only(g, argvals, depth=0):
+        if g.nocfg or len(g.blocks) > 80 or len(g.params) != len(argvals) or depth > 2:
+            return False
+        try:
+            an = Analysis(prog, g, summaries=sm)
+            st = an.entry_state()
+            for p, v in zip(g.params, argvals):
+                if p["id"] in an._tracked:
+                    st[("v", p["id"])] = an.convert(v, g.T(p["t"]))
+            an.run(state=st)
+        except Exception:
+            return False
+        rets = [(b, i, e) for b, i, e in g.elements() if e.get("k") == "ret" and e.get("e") is not None]
+        reached = [(b, i, e) for b, i, e in rets if an.reachable(b.id) and (b.id, i) in an.pre]
+        if not reached:
+            return False
+        # a function that refuses has other ways out as well; a forwarder with a single return is judged by what it forwards to
+        if len(reached) == len(rets) and not (len(rets) == 1 and cval(rets[0][2]["e"]) is None):
+            return False
+        for b, i, e in reached:
+            x = strip(e["e"], all_casts=True)
+            if cval(x) == 0:
+                continue
+            if x.get("k") == "cond" and cval(x["a"]) not in (None, 0) and cval(x["b"]) == 0:
+                x = strip(x["c"], all_casts=True)
+            if x.get("k") == "call" and x.get("fn"):
+                gs = prog.resolve_call(g, x)
+                if gs:
+                    vals = [an.value_at(b.id, i, a) for a in x.get("args", [])]
+                    if all(v is not None for v in vals) and refusal_only(gs[0], vals, depth + 1):
+                        continue
+            return False
+        return True
+
+    for f in funcs_of(prog, files):
+        an = None
+        k = 0
+        # calls whose result is ignored: statements of their own (not part of another element, not a branch operand) or cast to void
+        els = [e for b, i, e in f.elements()]
+        nested = set()
+        for e0 in els:
+            first = True
+            for n0 in walk(e0):
+                if first:
+                    first = False
+                    continue
+                if "sid" in n0 and not (e0.get("k") == "cast" and e0.get("ck") == "ToVoid"):
+                    nested.add(n0["sid"])
+        for blk in f.blocks.values():
+            if blk.term and isinstance(blk.term.get("cond"), dict):
+                for n0 in walk(blk.term["cond"]):
+                    if "sid" in n0:
+                        nested.add(n0["sid"])
+        for e in els:
+            if e.get("k") != "call" or not e.get("fn") or e.get("sid") in nested:
+                continue
+            nm = callee_name(e) or "?"
+            gs = prog.resolve_call(f, e)
+            if not gs or gs[0].nocfg or gs[0].T(gs[0].ret).get("k") not in ("ptr", "bool"):
+                continue
+            pos = None
+            for b, i, e3 in f.elements():
+                if e3 is e:
+                    pos = (b.id, i)
+            if pos is None:
+                continue
+            if an is None:
+                try:
+                    an = Analysis(prog, f, summaries=sm).run()
+                except Exception:
+                    an = False
+            if not an or not an.reachable(pos[0]):
+                continue
+            if any(f.T(strip(a, all_casts=True).get("t")).get("k") not in ("int", "ptr", "bool", "enum") and cval(a) is None for a in e.get("args", [])):
+                continue          # objects handed over by value or reference are not modelled
+            vals = [an.value_at(pos[0], pos[1], a) for a in e.get("args", [])]
+            if any(v is None for v in vals):
+                continue
+            dead = refusal_only(gs[0], vals)
+            k += 1
+            res.ob("%s:%s #%d can succeed" % (f.qn, (callee_name(e) or nm), k), not dead, f, e.get("l") or f.line,
+                   "" if not dead else "`%s` ignores its result, and with these arguments (%s) the callee reaches only its refusing returns: the statement has no effect" % (
+                       norm(show(e, f))[:70], ", ".join(str(v) for v in vals)))
+    return res
